@@ -481,7 +481,10 @@ class H(Harness):
     RULE = ('histories of 1-40 calls of setCompartment/changeCompartment/addNode/removeNode/addEdge/removeEdge (about 70 % '
             'satisfying their precondition) on networks of 2-8 nodes (path/star/complete/tailed triangle/random, both edge '
             'orientations, self-loops), every shipped compartmented model plus synthetic tables (EdgeLocus c c, overlapping loci, '
-            'multi loci), both dynamics, streams: random, rmnode_edges, noop_change, readd, same_comp_edge, selfloop; pairs of '
+            'multi loci), both dynamics, streams: random, rmnode_edges, noop_change, readd, same_comp_edge, selfloop; named multi-instance '
+            'combinations (two and three named instances in a ProcessSequence built from a dict on one network: interleaved '
+            'setCompartment/changeCompartment through each instance with the network fixed, and whole simulated runs; every '
+            'instance is compared with its own copy of the model and its own truth after every call of any instance); pairs of '
             'histories from one set-up state for the state-function clause; all histories of length <= 2 (quick) / <= 3 '
             '(thorough) over a 3-node universe for the SIR and Opinion tables; a case is non-trivial when at least 3 calls '
             'satisfied their precondition and some locus was non-empty; distinct by (model, network, initial compartments, calls)')
@@ -491,7 +494,8 @@ class H(Harness):
                'DrawSet add/discard/iteration modelled as a duplicate-free list (C09)']
     ASSUMPTIONS = ['node labels are not tuples (the code tells nodes from edges by isinstance(e, tuple))',
                    'compartment names have more than one character (set(self._left) in MultiCompartmentedEdgeLocus.compartments yields characters)',
-                   'calls that add an edge to a node without a compartment attribute are outside the model (never generated)']
+                   'calls that add an edge to a node without a compartment attribute are outside the model (never generated)',
+                   'in a multi-instance combination the network is not mutated through one instance (not a documented use: addNode/removeNode/addEdge/removeEdge of one process do not notify the loci of its siblings); never generated']
 
     # ---------------------------------------------------------------- generation
     STREAMS = ['random', 'random', 'rmnode_edges', 'noop_change', 'readd', 'same_comp_edge', 'selfloop']
